@@ -2,8 +2,8 @@ SPECIFICATION Spec
 CONSTANTS Bits = 4
           Poly = 19
           Basis <- BasisFor
-          MaxN = 7
-          MaxCfg = 9
-          Corners = FALSE
+          MaxN = 0
+          MaxCfg = 0
+          Corners = TRUE
 INVARIANTS EncInv DecInv
 CHECK_DEADLOCK FALSE
